@@ -132,6 +132,7 @@ type directViolation struct {
 	Step   int    `json:"step"`
 	What   string `json:"what"`
 	Replay any    `json:"replay"`
+	Class  *int   `json:"class,omitempty"` // known-finding class decided by the harness (matched against known_findings.jsonl)
 }
 
 type meta struct {
